@@ -4,6 +4,7 @@ import (
 	"fmt"
 	"go/token"
 	"go/types"
+	"strings"
 
 	"golang.org/x/tools/go/ssa"
 )
@@ -11,26 +12,210 @@ import (
 // Channels, goroutines and map/string iteration.  Until a protocol is
 // declared for them they are over-approximated (everything havocked).
 
-func (vc *VC) chanMade(st *State, x *ssa.MakeChan, ref string) {}
+// Channels and goroutines are given a ghost protocol (sequential, per function):
+//   enq     every successful send, in order:      (9, channel, item value, item type tag)
+//   deq     every receive, in order:               (11, channel, item value, item type tag)
+//   closed  which channels have been closed
+//   blocked number of channel operations executed that may block
+//   spawned every go statement:                    (10, function, 0, 0)
+// A pointer sent on a channel is no longer owned by the sender (pooled[p] becomes true), a pointer
+// received becomes owned (pooled[p] false).  Items of a channel with a `chaninv` satisfy it: checked
+// at every send, assumed at every receive.  Interleavings are not explored.
+
+const traceSort = "Trace"
+
+func (vc *VC) chanMade(st *State, x *ssa.MakeChan, ref string) {
+	vc.P.prelude.useFile(vc, "trace")
+	vc.setAt(st, "G_closed", "(Array Int Bool)", ref, "false")
+	vc.setAt(st, "G_chanCap", "(Array Int Int)", ref, vc.val(x.Size).S)
+}
+
+func (vc *VC) pointerTagTest(tag string) string {
+	var cs []string
+	for _, name := range vc.ss().tagOrder {
+		if strings.HasPrefix(name, "*") {
+			cs = append(cs, sx("=", tag, fmt.Sprint(vc.ss().typeTags[name])))
+		}
+	}
+	return or(cs...)
+}
+
+// itemParts gives the (value, tag) a channel item is recorded with.
+func itemParts(v Term) (string, string) {
+	if v.Sort == "Iface" {
+		return sx("if_val", v.S), sx("if_tag", v.S)
+	}
+	if v.Sort == "Int" {
+		return v.S, "0"
+	}
+	return "0", "0"
+}
+
+func (vc *VC) chanItemInv(st *State, ch Term, v Term) (string, *Clause) {
+	if ch.Prov == "" {
+		return "", nil
+	}
+	c := vc.P.spec.ChanInvs[ch.Prov]
+	if c == nil {
+		return "", nil
+	}
+	env := &Env{vc: vc, st: st, old: vc.entry, vars: map[string]Term{"v": v}, pkg: vc.P.logPkg.Types}
+	s, err := env.boolean(c.Expr)
+	if err != nil {
+		panic(execErr(fmt.Sprintf("chaninv %s: %v", ch.Prov, err)))
+	}
+	return s, c
+}
+
+// doSend records a completed send of v on ch (under condition cond).
+func (vc *VC) doSend(st *State, ch, v Term, cond string) {
+	vc.P.prelude.useFile(vc, "trace")
+	val, tag := itemParts(v)
+	enq := vc.get(st, "G_enq", traceSort)
+	vc.set(st, "G_enq", traceSort, sx("ite", cond, sx("tsnoc", enq, "9", ch.S, val, tag, "str_empty"), enq))
+	lg := vc.get(st, "G_chlog", traceSort)
+	vc.set(st, "G_chlog", traceSort, sx("ite", cond, sx("tsnoc", lg, "9", ch.S, val, tag, "str_empty"), lg))
+	if v.Sort == "Iface" {
+		pooled := vc.get(st, "G_pooled", "(Array Int Bool)")
+		vc.set(st, "G_pooled", "(Array Int Bool)", sx("ite", and(cond, vc.pointerTagTest(tag)), sx("store", pooled, val, "true"), pooled))
+	}
+}
+
+func (vc *VC) doRecv(st *State, ch, x Term, cond string) {
+	vc.P.prelude.useFile(vc, "trace")
+	val, tag := itemParts(x)
+	deq := vc.get(st, "G_deq", traceSort)
+	vc.set(st, "G_deq", traceSort, sx("ite", cond, sx("tsnoc", deq, "11", ch.S, val, tag, "str_empty"), deq))
+	lg := vc.get(st, "G_chlog", traceSort)
+	vc.set(st, "G_chlog", traceSort, sx("ite", cond, sx("tsnoc", lg, "11", ch.S, val, tag, "str_empty"), lg))
+	if x.Sort == "Iface" {
+		pooled := vc.get(st, "G_pooled", "(Array Int Bool)")
+		vc.set(st, "G_pooled", "(Array Int Bool)", sx("ite", and(cond, vc.pointerTagTest(tag)), sx("store", pooled, val, "false"), pooled))
+	}
+	if inv, _ := vc.chanItemInv(st, ch, x); inv != "" {
+		vc.assume(implies(cond, inv))
+	}
+}
+
+func (vc *VC) sendChecks(st *State, ch, v Term, guard string, pos token.Pos, label string) {
+	closed := vc.get(st, "G_closed", "(Array Int Bool)")
+	vc.oblige("nopanic.closed-chan", label, vc.nopanicProps(), guard, not(sx("select", closed, ch.S)), "the channel is not closed when it is sent on", pos)
+	if inv, c := vc.chanItemInv(st, ch, v); inv != "" {
+		vc.oblige("chan-item", label+": "+ch.Prov, c.Props, guard, inv, "item sent on "+ch.Prov+" satisfies the channel invariant: "+c.Text, pos)
+	}
+}
+
+func (vc *VC) bumpBlocked(st *State) {
+	b := vc.get(st, "G_blocked", "Int")
+	vc.set(st, "G_blocked", "Int", sx("+", b, "1"))
+}
 
 func (vc *VC) goStmt(st *State, x *ssa.Go, guard string) {
-	vc.unsupported(st, x, guard)
+	vc.P.prelude.useFile(vc, "trace")
+	cc := x.Call
+	callee := cc.StaticCallee()
+	if callee == nil {
+		vc.unsupported(st, x, guard)
+		return
+	}
+	name := vc.P.specName(callee)
+	if spec := vc.P.findSpec(callee); spec != nil {
+		// the spawned function's precondition must hold at the go statement
+		var args []Term
+		for _, a := range cc.Args {
+			args = append(args, vc.val(a))
+		}
+		env := &Env{vc: vc, st: st, old: st, vars: map[string]Term{}, pkg: vc.pkgOf(callee)}
+		for i, p := range callee.Params {
+			if i < len(args) {
+				env.vars[p.Name()] = args[i]
+			}
+		}
+		if mc, ok := cc.Value.(*ssa.MakeClosure); ok {
+			for i, fv := range callee.FreeVars {
+				if i < len(mc.Bindings) {
+					env.vars["&"+fv.Name()] = vc.val(mc.Bindings[i])
+				}
+			}
+		}
+		for _, c := range spec.clauses("requires") {
+			s, err := env.boolean(c.Expr)
+			if err != nil {
+				panic(execErr(fmt.Sprintf("requires of %s at go statement: %v", spec.Name, err)))
+			}
+			vc.oblige("go-pre", vc.srcLabel(x)+": "+spec.Name+"."+c.label(), vc.nopanicProps(), guard, s, "precondition of the spawned function "+spec.Name+": "+c.Text, x.Pos())
+		}
+		vc.usedSpecs[spec.Name] = true
+	} else {
+		vc.note("go statement spawning " + name + ", which has no contract")
+	}
+	sp := vc.get(st, "G_spawned", traceSort)
+	vc.set(st, "G_spawned", traceSort, sx("tsnoc", sp, "10", vc.funcConst(name), "0", "0", "str_empty"))
 }
 
 func (vc *VC) send(st *State, x *ssa.Send, guard string) {
-	vc.unsupported(st, x, guard)
+	ch := vc.val(x.Chan)
+	v := vc.val(x.X)
+	vc.sendChecks(st, ch, v, guard, x.Pos(), vc.srcLabel(x))
+	vc.bumpBlocked(st)
+	vc.doSend(st, ch, v, "true")
 }
 
 func (vc *VC) recv(st *State, x *ssa.UnOp, guard string) {
-	vc.unsupported(st, x, guard)
+	ch := vc.val(x.X)
+	et := types.Unalias(x.X.Type()).Underlying().(*types.Chan).Elem()
+	vc.bumpBlocked(st)
+	sortName := vc.ss().sortOf(et)
+	xv := vc.fresh("recv", sortName)
+	vc.assume(vc.ss().typeInv(et, xv, 0))
+	xt := Term{S: xv, Sort: sortName, T: et}
+	if x.CommaOk {
+		ok := vc.fresh("recv_ok", "Bool")
+		// !ok: the channel is closed and drained
+		vc.assume(implies(not(ok), and(sx("select", vc.get(st, "G_closed", "(Array Int Bool)"), ch.S), sx("=", xv, vc.ss().zero(et)))))
+		vc.doRecv(st, ch, xt, ok)
+		vc.tuples[x] = []Term{xt, {S: ok, Sort: "Bool", T: types.Typ[types.Bool]}}
+		return
+	}
+	vc.doRecv(st, ch, xt, "true")
+	vc.vals[x] = xt
 }
 
 func (vc *VC) selectStmt(st *State, x *ssa.Select, guard string) {
-	vc.unsupported(st, x, guard)
+	if x.Blocking || len(x.States) != 1 {
+		vc.unsupported(st, x, guard)
+		return
+	}
+	s := x.States[0]
+	ch := vc.val(s.Chan)
+	chosen := vc.fresh("sel", "Bool")
+	idx := Term{S: sx("ite", chosen, "0", "(- 1)"), Sort: "Int", T: types.Typ[types.Int]}
+	if s.Dir == types.SendOnly {
+		v := vc.val(s.Send)
+		vc.sendChecks(st, ch, v, guard, x.Pos(), vc.srcLabel(x))
+		vc.doSend(st, ch, v, chosen)
+		vc.tuples[x] = []Term{idx, {S: "false", Sort: "Bool", T: types.Typ[types.Bool]}}
+		return
+	}
+	et := types.Unalias(s.Chan.Type()).Underlying().(*types.Chan).Elem()
+	sortName := vc.ss().sortOf(et)
+	xv := vc.fresh("recv", sortName)
+	vc.assume(vc.ss().typeInv(et, xv, 0))
+	xt := Term{S: xv, Sort: sortName, T: et}
+	rok := vc.fresh("recv_ok", "Bool")
+	// a receive that yields !ok means the channel is closed; an open channel yields ok
+	vc.assume(implies(and(chosen, not(rok)), sx("select", vc.get(st, "G_closed", "(Array Int Bool)"), ch.S)))
+	vc.doRecv(st, ch, xt, and(chosen, rok))
+	vc.tuples[x] = []Term{idx, {S: rok, Sort: "Bool", T: types.Typ[types.Bool]}, xt}
 }
 
 func (vc *VC) closeChan(st *State, ch Term, guard string, pos token.Pos, label string) {
-	vc.havocAll(st, "close of a channel (over-approximated)")
+	closed := vc.get(st, "G_closed", "(Array Int Bool)")
+	vc.oblige("nopanic.closed-chan", label, vc.nopanicProps(), guard, and(not(sx("=", ch.S, "0")), not(sx("select", closed, ch.S))), "close of a channel that is neither nil nor closed", pos)
+	vc.setAt(st, "G_closed", "(Array Int Bool)", ch.S, "true")
+	vc.P.prelude.useFile(vc, "trace")
+	lg := vc.get(st, "G_chlog", traceSort)
+	vc.set(st, "G_chlog", traceSort, sx("tsnoc", lg, "12", ch.S, "0", "0", "str_empty"))
 }
 
 // Range over a map: "each key exactly once, in an unspecified order".  A ghost set of visited
